@@ -36,6 +36,9 @@ prop("C03", [
     {"name": "c03_robustness", "sources": ["c03_robustness.cc"], "flavour": "asan",
      "args": {"quick": ["--L=4", "--Lv=3", "--Dt=3", "--timeout-ms=8000", "--deadline-s=170"],
               "thorough": ["--L=5", "--Lv=4", "--Dt=4", "--tab-log2=25", "--timeout-ms=20000", "--deadline-s=1500"]}},
+    {"name": "c03_server", "sources": ["c03_server.cc"], "flavour": "asan",
+     "args": {"quick": ["--L=3", "--Lb=1", "--Dt=2", "--timeout-ms=20000", "--deadline-s=170"],
+              "thorough": ["--L=4", "--Lb=2", "--Dt=3", "--timeout-ms=60000", "--deadline-s=1200"]}},
 ],
     rule="one case = a block of up to 512 inputs: (A) 34 parser modes x every string over a 12-symbol alphabet "
          "(letters, digits, separators, CR, LF, NUL, 0xFF) up to length L, with and without a completing tail; "
@@ -124,6 +127,13 @@ prop("C11", [
     {"name": "c11_promises", "sources": ["c11_promises.cc"], "flavour": "asan",
      "args": {"quick": ["--K=4", "--comb=2", "--prefix=3", "--timeout-ms=120000", "--deadline-s=170"],
               "thorough": ["--K=5", "--comb=3", "--prefix=3", "--tab-log2=25", "--timeout-ms=1200000", "--deadline-s=2400"]}},
+    # the combinators' inputs settled by two threads at once (the same controlled scheduler and harness as C12)
+    {"name": "c11_combinators_mt", "sources": ["c12_async.cc"], "c_sources": ["common/vsched.c"], "flavour": "asan",
+     "args": {"quick": ["--from=13", "--maxbound=2", "--timeout-ms=40000", "--deadline-s=170"],
+              "thorough": ["--from=13", "--thorough=1", "--maxbound=3", "--timeout-ms=3000000", "--deadline-s=1200"]}},
+    {"name": "c11_combinators_mt_tsan", "sources": ["c12_async.cc"], "c_sources": ["common/vsched.c"], "flavour": "tsan",
+     "args": {"quick": ["--from=13", "--maxbound=1", "--timeout-ms=40000", "--deadline-s=170"],
+              "thorough": ["--from=13", "--maxbound=2", "--timeout-ms=3000000", "--deadline-s=1200"]}},
 ],
     rule="one case = all programs of exactly K operations below one 3-operation prefix; operations: create "
          "(pending / resolved / rejected Promise<int>), then(h, {value, void, promise-returning with inner resolved / "
@@ -160,11 +170,11 @@ prop("C13", [
 
 prop("C12", [
     {"name": "c12_async", "sources": ["c12_async.cc"], "c_sources": ["common/vsched.c"], "flavour": "asan",
-     "args": {"quick": ["--maxbound=2", "--timeout-ms=40000", "--deadline-s=170"],
-              "thorough": ["--thorough=1", "--maxbound=3", "--timeout-ms=3000000", "--deadline-s=2400"]}},
+     "args": {"quick": ["--to=12", "--maxbound=2", "--timeout-ms=40000", "--deadline-s=170"],
+              "thorough": ["--to=12", "--thorough=1", "--maxbound=3", "--timeout-ms=3000000", "--deadline-s=2400"]}},
     {"name": "c12_async_tsan", "sources": ["c12_async.cc"], "c_sources": ["common/vsched.c"], "flavour": "tsan",
-     "args": {"quick": ["--maxbound=1", "--timeout-ms=40000", "--deadline-s=170"],
-              "thorough": ["--maxbound=2", "--timeout-ms=3000000", "--deadline-s=1200"]}},
+     "args": {"quick": ["--to=12", "--maxbound=1", "--timeout-ms=40000", "--deadline-s=170"],
+              "thorough": ["--to=12", "--maxbound=2", "--timeout-ms=3000000", "--deadline-s=1200"]}},
 ],
     rule="one case = (scenario, preemption bound): two or three real threads on real Async::Promise objects - "
          "{resolve || then}, {resolve || then;then}, {reject || then}, {settle p || then on a promise derived from p by "
